@@ -347,7 +347,7 @@ pub fn run(ctx: &mut Ctx) {
         "mock execution links are only added for exchanges whose instruments are all spot (MockExchange documents no other kind)".into(),
     ];
     ctx.run_regressions::<IndexTables>();
-    ctx.run::<IndexTables>(ctx.tier.pick(4_000, 100_000));
+    ctx.run::<IndexTables>(ctx.tier.pick(50_000, 800_000));
 }
 
 pub fn replay(ctx: &mut Ctx, doc: &Value) -> bool {
